@@ -152,6 +152,44 @@ def stale_reads(fnode, loop):
     return out
 
 
+def conditional_stale(fnode, loop):
+    """names assigned only under a condition inside the loop (one branch of an if), from an expression that reads the loop variable,
+    and read in the loop outside that branch: in the other iterations they still hold the value of the iteration that took the branch"""
+    if not isinstance(loop, ast.For):
+        return []
+    lv = {n.id for n in ast.walk(loop.target) if isinstance(n, ast.Name)}
+    out = []
+
+    def assigned(stmts):
+        names = {}
+        for st in stmts:
+            for n in ast.walk(st):
+                if isinstance(n, ast.Assign):
+                    for t in n.targets:
+                        for x in ast.walk(t):
+                            if isinstance(x, ast.Name) and isinstance(x.ctx, ast.Store):
+                                names.setdefault(x.id, n)
+        return names
+    top = assigned([st for st in loop.body if not isinstance(st, ast.If)])
+    for st in loop.body:
+        if not isinstance(st, ast.If):
+            continue
+        a_body, a_else = assigned(st.body), assigned(st.orelse)
+        for branch, other, here in ((a_body, a_else, st.body), (a_else, a_body, st.orelse)):
+            for name, asg in branch.items():
+                if name in other or name in top:
+                    continue
+                # the whole chained value (a = b = E assigns E to both)
+                if not (value_deps(asg.value) & lv):
+                    continue
+                # read outside this branch?
+                readers = [n for s2 in loop.body for n in ast.walk(s2) if isinstance(n, ast.Name) and n.id == name and isinstance(n.ctx, ast.Load)
+                           and not any(n is y for h in here for y in ast.walk(h))]
+                if readers:
+                    out.append((name, asg, sorted(lv)[0], readers[0]))
+    return out
+
+
 def rule_stale(repo, rid, targets, floor=None):
     """targets: [(module, qualname)] - every loop of those functions is examined"""
     from .core import RuleResult, Finding
@@ -161,7 +199,7 @@ def rule_stale(repo, rid, targets, floor=None):
         f = repo.func(mod, q)
         loops = [x for x in ast.walk(f.node) if isinstance(x, (ast.For, ast.While))]
         for loop in loops:
-            hits = stale_reads(f.node, loop)
+            hits = stale_reads(f.node, loop) + conditional_stale(f.node, loop)
             rebound, inplace = mutated_in(loop.body)
             res.inst({'function': f.fq, 'loop_line': loop.lineno, 'changed_in_loop': sorted(rebound | inplace)[:12], 'stale_reads': len(hits)},
                      (f.fq, src(loop.test if isinstance(loop, ast.While) else loop.iter)[:60]))
